@@ -361,6 +361,22 @@ fn check_state(
             o.label("compatible-overwrite");
         }
     }
+    // one extend call whose list names a feature twice: the per-query model is built this way
+    // (model features followed by the query's overrides, search_app_ops::collect_features)
+    let mut one_list = tuples.clone();
+    if path == 2 && n > 0 {
+        if let Some((j, unit, init)) = overwrite {
+            let j = pick_idx(*j, n);
+            let mut nf = feats[j].clone();
+            nf.unit = *unit;
+            nf.initial = *init;
+            one_list.push((key(nf.name), feature(&nf)));
+            feats[j] = nf;
+            overwritten = true;
+            o.label("compatible-overwrite");
+            o.label("overwrite-within-one-extend-list");
+        }
+    }
     let built: Result<StateModel, String> = match path {
         0 => Ok(StateModel::new(tuples.clone())),
         1 => {
@@ -370,7 +386,7 @@ fn check_state(
             }
             StateModel::try_from(&serde_json::Value::Object(obj)).map_err(|e| e.to_string())
         }
-        2 => StateModel::empty().extend(tuples.clone()).map_err(|e| e.to_string()),
+        2 => StateModel::empty().extend(one_list.clone()).map_err(|e| e.to_string()),
         3 => StateModel::new(tuples[..a].to_vec())
             .extend(tail.clone())
             .map_err(|e| e.to_string()),
@@ -535,7 +551,17 @@ fn check_state(
                             return;
                         }
                     }
-                } else if let Some(dv) = to_feature_unit(fs, value, *unit) {
+                } else if let Some(dv) = to_feature_unit(fs, value, *unit).or_else(|| {
+                    // energy given in another unit: no physical reference, but adding must be
+                    // additive - the slot moves by what the same call adds to an empty slot
+                    let mut zeroed = state.clone();
+                    for (j, b) in before.iter().enumerate() {
+                        zeroed[j] = StateVar(if j == i { 0.0 } else { *b });
+                    }
+                    sm.add_energy(&mut zeroed, &name, &Energy::new(value), &ENERGY_UNITS[u]).ok()?;
+                    o.label("energy-add-in-other-unit");
+                    Some(zeroed[i].0)
+                }) {
                     let want = before[i] + dv;
                     let tol = 1e-3 * (before[i].abs() + dv.abs()) + 1e-12;
                     if (state[i].0 - want).abs() > tol {
